@@ -1,0 +1,23 @@
+//go:build verif
+
+package verifapi
+
+import "github.com/deepteams/webp/internal/lossy"
+
+// First-partition header of property C06 (suite boolcoder, ops hdremit / hdrparse).
+
+type (
+	HeaderIn      = lossy.VerifHeaderIn
+	HeaderState   = lossy.VerifHeaderState
+	SegmentHeader = lossy.SegmentHeader
+	FilterHeaderT = lossy.FilterHeader
+)
+
+// EmitHeader is lossy.VerifEmitHeader: the real emitPartition0 over zero macroblocks.
+func EmitHeader(in *HeaderIn) []byte { return lossy.VerifEmitHeader(in) }
+
+// ParseHeaders is lossy.VerifParseHeaders: the real parseHeaders on a VP8 payload.
+func ParseHeaders(payload []byte) HeaderState { return lossy.VerifParseHeaders(payload) }
+
+// DefaultCoefProbas is lossy.VerifDefaultCoefProbas (CoeffsProba0, flattened).
+func DefaultCoefProbas() [1056]uint8 { return lossy.VerifDefaultCoefProbas() }
